@@ -250,7 +250,24 @@ func checkC15(c *Check) {
 		}
 		okGrow = okGrow && mode
 	}
-	c.Ob("R2", "exactly the published event is appended, in subscriber mode, in the publish case", sel.Pos(), okGrow, "")
+	if okGrow {
+		// ... on every path of the publish case in subscriber mode: with the edges on which eventch is nil taken out,
+		// every way from the case back to the loop head passes the append (a conditional append drops events)
+		g := grow[0]
+		isGrow := func(in ssa.Instruction) bool { return in == ssa.Instruction(g) }
+		notSub := func(b *ssa.BasicBlock, idx int) bool {
+			ifi, isIf := b.Instrs[len(b.Instrs)-1].(*ssa.If)
+			if !isIf {
+				return false
+			}
+			a := condAtom(ifi.Cond, idx == 0)
+			return a.Op == "eq" && isNilConst(a.Y) && nrm(Sym(a.X)) == "p:b.eventch"
+		}
+		if !mustPassAvoidingFrom(home, pb, loopHead.Instrs[0], isGrow, notSub) {
+			okGrow = false
+		}
+	}
+	c.Ob("R2", "exactly the published event is appended, in subscriber mode, in the publish case", sel.Pos(), okGrow, "a published event can pass the publish case of a subscriber without being appended to its buffer (or something else is appended): that subscriber never receives it")
 	// forwarding
 	{
 		var fwd *ssa.Call
@@ -546,6 +563,7 @@ func checkC15(c *Check) {
 		c.Ob("R4", "chain events reach the bus synchronously, in the order received", pe.Pos(), okSeq && npub >= 1, why)
 	}
 	c.chainEventQueries("R4")
+	c.okOnlyPublished("R4")
 	c.orderMonitorSubscription("R2")
 }
 
@@ -642,5 +660,78 @@ func (c *Check) orderMonitorSubscription(rule string) {
 	}
 	if n == 0 {
 		c.Info(rule, "order monitor subscription field not found, not decided", fn.Pos(), "")
+	}
+}
+
+// okOnlyPublished: the publisher hands the events of a transaction result to the bus only where the result is known
+// to be OK: a failed transaction's events describe changes the chain rolled back (a version update, a lease, a close
+// that never happened). Shared by C15-R4, C10-R1 and C16-R5.
+func (c *Check) okOnlyPublished(rule string) {
+	l := c.L
+	pe := l.Func("events", "", "publishEvents")
+	if pe == nil {
+		c.Info(rule, "events.publishEvents not found, not decided", token.NoPos, "")
+		return
+	}
+	c.Analysed(fnName(pe))
+	n := 0
+	for _, g := range fnAndClosuresDeep(pe) {
+		for _, call := range callsInOwn(g) {
+			if calleeMethod(call) != "processEvents" {
+				continue
+			}
+			s := Sym(call.Common().Args[len(call.Common().Args)-1])
+			if !strings.Contains(s, "EventDataTx") && !strings.Contains(s, ".Result") {
+				continue // block-level events have no result code
+			}
+			if strings.Contains(s, "ResultEndBlock") || strings.Contains(s, "ResultBeginBlock") {
+				continue
+			}
+			n++
+			okFact := boolCallFactAt(call.Block(), true, func(h *ssa.Call, _ int) bool { return calleeMethod(h) == "IsOK" })
+			if li := liftTo(pe, call); !okFact && li != nil && li != ssa.Instruction(call.(ssa.Instruction)) {
+				okFact = boolCallFactAt(li.Block(), true, func(h *ssa.Call, _ int) bool { return calleeMethod(h) == "IsOK" })
+			}
+			c.Ob(rule, "events of a transaction are published only if the transaction succeeded", call.Pos(), okFact, "the events of a failed transaction reach the bus: subscribers act on a deployment update / lease / close that the chain rolled back")
+			// ... and every successful transaction's events are: no further condition decides the hand-over
+			extra := ""
+			for _, a := range factsAt(call.Block()) {
+				s := Sym(a.X)
+				if cv, _ := callOf(a.X); cv != nil && calleeMethod(cv) == "IsOK" {
+					continue
+				}
+				if a.Y != nil {
+					// the select's case index
+					if ex, isEx := a.X.(*ssa.Extract); isEx {
+						if _, isSel := ex.Tuple.(*ssa.Select); isSel && ex.Index == 0 {
+							continue
+						}
+					}
+				}
+				if _, isTA := a.X.(*ssa.TypeAssert); isTA {
+					continue
+				}
+				if ex, isEx := a.X.(*ssa.Extract); isEx {
+					if _, isTA := ex.Tuple.(*ssa.TypeAssert); isTA {
+						continue
+					}
+					if _, isSel := ex.Tuple.(*ssa.Select); isSel {
+						continue
+					}
+				}
+				if bo, isBO := a.X.(*ssa.BinOp); isBO {
+					if ex, isEx := bo.X.(*ssa.Extract); isEx {
+						if _, isSel := ex.Tuple.(*ssa.Select); isSel {
+							continue
+						}
+					}
+				}
+				extra += " [" + a.Op + " " + short(s) + "]"
+			}
+			c.Ob(rule, "the events of every successful transaction are published (no further filter)", call.Pos(), extra == "", "whether a successful transaction's events reach the bus also depends on"+extra+": transactions for which it does not hold are dropped")
+		}
+	}
+	if n == 0 {
+		c.Info(rule, "publisher: no hand-over of transaction events found, result guard not decided", pe.Pos(), "")
 	}
 }
